@@ -56,6 +56,18 @@ func isSyncMapType(e ast.Expr) bool {
 	return ok && id.Name == "sync" && se.Sel.Name == "Map"
 }
 
+func isSyncPoolType(e ast.Expr) bool {
+	if st, ok := e.(*ast.StarExpr); ok {
+		e = st.X
+	}
+	se, ok := e.(*ast.SelectorExpr)
+	if !ok {
+		return false
+	}
+	id, ok := se.X.(*ast.Ident)
+	return ok && id.Name == "sync" && se.Sel.Name == "Pool"
+}
+
 // collectResets inspects a package-level var declaration BEFORE rewriting.
 func collectResets(gd *ast.GenDecl) {
 	if gd.Tok != token.VAR {
@@ -70,6 +82,21 @@ func collectResets(gd *ast.GenDecl) {
 			var init ast.Expr
 			if i < len(vs.Values) {
 				init = vs.Values[i]
+			}
+			// a package-level sync.Pool starts empty in a fresh process
+			if vs.Type != nil && isSyncPoolType(vs.Type) {
+				resets = append(resets, name.Name+".ZZVerifReset()")
+				continue
+			}
+			if init != nil {
+				x := init
+				if u, ok := x.(*ast.UnaryExpr); ok && u.Op == token.AND {
+					x = u.X
+				}
+				if cl, ok := x.(*ast.CompositeLit); ok && isSyncPoolType(cl.Type) {
+					resets = append(resets, name.Name+".ZZVerifReset()")
+					continue
+				}
 			}
 			switch {
 			case vs.Type != nil && isSyncMapType(vs.Type) && init == nil:
